@@ -275,10 +275,14 @@ func (s *Syncer[H]) sync(ctx context.Context) {
 		return
 	}
 
+	// (the state is shared with State() and with syncs started by tail moves: read it under its lock)
+	s.stateLk.RLock()
+	elapsed := s.state.End.Sub(s.state.Start)
+	s.stateLk.RUnlock()
 	log.Infow("finished syncing headers",
 		"from", from,
 		"to", subjHead.Height(),
-		"elapsed time", s.state.End.Sub(s.state.Start))
+		"elapsed time", elapsed)
 }
 
 // doSync performs actual syncing updating the internal State.
